@@ -25,7 +25,7 @@ RULE = (
 MANIFEST = {
     "text": "Metamorphic search: each generated molecule is described several times (permuted atoms, shuffled atom/bond listing, flipped endpoints, arbitrary file indices; via the graph constructor - also with labels that differ from iteration positions, re-fed canonical output, and attribute dicts reused from a parent graph - and via independently rendered V3000/V2000 files) and all descriptions must give byte-identical strings; all n! relabelings for n<=6. Strong at finding label/order dependence incl. symmetric, WL-hard, multi-component and partially labelled molecules; it cannot prove invariance.",
     "note": "Trusted: the abstract model's permute(); own renderers (cross-checked by C07/C08). bliss is exercised, not verified.",
-    "technique": "property-based testing: metamorphic relation over generated molecules x relabelings (Hypothesis, 16 shards) + exhaustive n! relabelings for n<=6",
+    "technique": "property-based testing: metamorphic relation over generated molecules x relabelings (Hypothesis, 16 shards; all n! relabelings for n<=6) + finite sweeps: all coloured graphs n<=4/5 under all n! relabelings, all 117 neighbouring element pairs across formats",
 }
 ASSUMPTIONS = [
     "own renderers produce spec-conformant molfiles (validated against the reader model in C07/C08)",
